@@ -133,12 +133,15 @@ Lemma existsb_filter_nil : forall A (p : A -> bool) l, existsb p l = negb (is_ni
 Proof. intros A p. induction l as [|x tl IH]; [reflexivity|]. cbn. destruct (p x); [reflexivity|exact IH]. Qed.
 
 Lemma keyed_list_flat : forall c benches groups e,
-  no_name_clash benches groups -> In e (all_entries benches groups) ->
-  lcase_of c (c_filter c) [] None (rekey groups (rleaf_of e)) = flat_list_case c groups e.
+  no_name_clash (attach_key benches groups) benches groups -> lookups_agree benches groups ->
+  In e (all_entries benches groups) ->
+  lcase_of c (c_filter c) [] None (rekey (attach_key benches groups) groups (rleaf_of e))
+  = flat_list_case c (find_module_group groups) e.
 Proof.
-  intros c benches groups e Hg He. unfold lcase_of, flat_list_case, rekey, rleaf_of. cbn [fst snd].
-  rewrite (keyed_chain_entry benches groups e Hg He).
-  fold (chain_path (entry_chain groups e)). fold (chain_options (entry_chain groups e)).
+  intros c benches groups e Hg Hl He. unfold lcase_of, flat_list_case, rekey, rleaf_of. cbn [fst snd].
+  rewrite (keyed_chain_entry (attach_key benches groups) benches groups e Hg He).
+  rewrite <- (entry_chain_agree benches groups e Hl He).
+  fold (chain_path (entry_chain (find_module_group groups) e)). fold (chain_options (entry_chain (find_module_group groups) e)).
   unfold leaf_args. destruct (entry_runner e) as [|o vals]; [reflexivity|].
   rewrite existsb_filter_nil. reflexivity.
 Qed.
@@ -148,18 +151,18 @@ Section Sorted.
   Hypothesis srt_perm : forall t, forest_perm t (srt t).
 
   Lemma list_view : forall c benches groups,
-    no_name_clash benches groups ->
+    no_name_clash (attach_key benches groups) benches groups -> lookups_agree benches groups ->
     snd (run_action c srt List benches groups) = None /\
     Permutation (painted_leaves (fst (run_action c srt List benches groups))) (flat_list c benches groups).
   Proof.
-    intros c benches groups Hg.
+    intros c benches groups Hg Hl.
     set (t := retain (c_filter c) (build_tree benches groups)).
     assert (Hflat : Permutation (listed_forest c [] None t) (flat_list c benches groups)).
     { unfold t. rewrite listed_retain_forest, build_tree_leaves_rel. unfold flat_list.
       eapply Permutation_trans.
       - apply Permutation_flat_map_l. apply Permutation_map. apply tree_complete.
       - rewrite map_map, flat_map_map.
-        rewrite (flat_map_ext_in _ _ _ _ (all_entries benches groups) (fun e He => keyed_list_flat c benches groups e Hg He)).
+        rewrite (flat_map_ext_in _ _ _ _ (all_entries benches groups) (fun e He => keyed_list_flat c benches groups e Hg Hl He)).
         apply Permutation_refl. }
     unfold run_action. fold t. destruct (is_nil t) eqn:En.
     - apply is_nil_spec in En. rewrite En in Hflat. split; [reflexivity|exact Hflat].
